@@ -81,6 +81,9 @@ async fn call(handler: &str, file: &str, app: &Arc<AppShareData>) -> Result<(u16
         }
         ("get_tool_spec", _) => outcome(crate::console::v2::mcp_tool_spec_api::get_tool_spec(req.clone(), web::Query(tool_params()), data).await, &req).await,
         ("remove_tool_spec", _) => outcome(crate::console::v2::mcp_tool_spec_api::remove_tool_spec(req.clone(), data, web::Json(tool_params())).await, &req).await,
+        ("update_tool_specs", _) => {
+            outcome(crate::console::v2::mcp_tool_spec_api::update_tool_specs(req.clone(), data, web::Json(vec![tool_params()])).await, &req).await
+        }
         ("add_or_update_tool_spec", _) => {
             outcome(crate::console::v2::mcp_tool_spec_api::add_or_update_tool_spec(req.clone(), data, web::Json(tool_params())).await, &req).await
         }
@@ -142,6 +145,22 @@ async fn call(handler: &str, file: &str, app: &Arc<AppShareData>) -> Result<(u16
                 (403, format!("NO_NAMESPACE_PERMISSION (the configuration of namespace 'forbidden' is untouched; the handler answered {} {})", o.0, &o.1[..o.1.len().min(80)]))
             } else {
                 (200, "the configuration verif-d / G of namespace 'forbidden' is gone after remove_config(tenant 'allowed', group 'G<U+0002>forbidden')".to_string())
+            }
+        }
+        ("download_config_by_keys", _) => {
+            // export by key list (POST /rnacos/api/console/config/download): a configuration of the forbidden namespace is published first, then exported by its key
+            use crate::config::core::ConfigKey;
+            use crate::console::model::config_model::ConfigParams;
+            use crate::raft::cluster::model::SetConfigReq;
+            let key = ConfigKey::new("verif-d", "verif-g", "forbidden");
+            app.config_route.set_config(SetConfigReq::new(key, Arc::new("secret-of-forbidden".to_owned()))).await.map_err(|e| format!("MODEL: publish: {}", e))?;
+            tokio::time::sleep(Duration::from_millis(300)).await;
+            let p = ConfigParams { data_id: Arc::new("verif-d".to_owned()), group: Some(Arc::new("verif-g".to_owned())), tenant: Some("forbidden".to_owned()), ..Default::default() };
+            let o = outcome(crate::console::config_api::download_config_by_keys(req.clone(), web::Json(vec![p]), web::Data::new(app.config_addr.clone())).await, &req).await;
+            if o.0 == 200 {
+                (200, format!("a zip export of {} bytes is returned for the key verif-d / verif-g of namespace 'forbidden'", o.1.len()))
+            } else {
+                o
             }
         }
         ("get_config", _) if file.contains("openapi") => {
